@@ -61,6 +61,32 @@ def term_node(i, **kw):
     return globals()[f"F{i}"](**kw)
 
 
+# ---- macro wrappers M0..M31: a macro whose body is exactly the term node F_i, arguments passed through.
+# To the outside it computes the same term as F_i, so a flat model of the enclosing graph applies unchanged,
+# while the implementation goes through the macro machinery (interface nodes, value links, a nested run loop).
+
+
+def _mk_macro(i):
+    from pyiron_workflow import as_macro_node
+
+    def M(self, a="d", b="d", c="d"):
+        self.inner = term_node(i, a=a, b=b, c=c)
+        return self.inner.outputs.o
+
+    M.__name__ = f"M{i}"
+    M.__qualname__ = f"M{i}"
+    M.__module__ = __name__
+    return as_macro_node("o", validate_output_labels=False)(M)
+
+
+for _i in range(N_TERM):
+    globals()[f"M{_i}"] = _mk_macro(_i)
+
+
+def macro_node(i, **kw):
+    return globals()[f"M{i}"](**kw)
+
+
 def ref_term(i, a="d", b="d", c="d"):
     return (f"f{i}", a, b, c)
 
